@@ -509,3 +509,6 @@ def b_sphere(rng, tier):
             continue
         d = C.circle_diameter(*[Angle(v) for p in pts for v in p])()
         yield (("circle", tuple(pts)), s[2] - 1e-9 <= d <= 2 * s[2] / math.sqrt(3) + 1e-9, d)
+
+
+P.frame_check()
